@@ -16,6 +16,8 @@ METHODS = ['symbolic_expressions_at', 'symbolic_expressions_at_offset']
 
 def run(ctx):
     g = gtirb_from_repo.load()
+    import lookups as _lkd
+    _lkd.deferred_consumption(ctx, g, 'expressions', 'symexpr-lookup:deferred')
     import lookups as _lk
     _lk.failed_bulk_scenario(ctx, g, ctx.rng, 40 if ctx.quick else 800, 'symexpr-lookup:failed-bulk')
     nh, ln = (200, 40) if ctx.quick else (3000, 60)
